@@ -22,14 +22,17 @@
 //    Tolerance RANK_K = 16 eps relative, same floor (the observed worst equals the evaluation
 //    error alone, 2.3 eps; a wrong pruning rule shows up as errors of order 1, not of order eps).
 //  * structure (index < n, indices distinct, distances ascending) is exact.
-//  Magnitudes: set extents 1e-3..1e3, sets translated by up to 1e9 (unit spacing; in float the
-//  points collapse onto multiples of the ulp, the oracle uses the stored values), queries up to
-//  1e16 away (squared distances up to ~3e32 < FLT_MAX).  All bounds above are relative and hold
+//  Magnitudes: set extents 1e-3..1e3 (tiny class: down to 1e-15 float / 1e-150 double), sets
+//  translated by up to 1e9 (unit spacing; in float the points collapse onto multiples of the ulp,
+//  the oracle uses the stored values), queries up to 1e18 (float) / 1e150 (double) away: the
+//  largest decades for which DIM * distance^2 stays finite in the Scalar (FLT_MAX 3.4e38,
+//  DBL_MAX 1.8e308).  All bounds above are relative and hold
 //  as long as nothing overflows or underflows: fl(a-b) = (a-b)(1+d) whatever the cancellation,
 //  and the 64-bit significand of long double keeps the reference error below 2^-62 relative.
 #include <Eigen/Core>
 #include <memory>
 #include <numeric>
+#include <type_traits>
 #include "romea_core_common/pointset/KdTree.hpp"
 #include "vh.hpp"
 
@@ -52,9 +55,11 @@ template<> struct TypeName<romea::core::HomogeneousCoordinates3f> {static const 
 template<> struct TypeName<romea::core::HomogeneousCoordinates3d> {static const char * n() {return "Homogeneous3d";} enum {id = 7};};
 
 static const char * const SET_KIND[] = {"uniform", "clustered", "collinear", "coplanar", "lattice",
-  "identical", "duplicates", "multiscale"};
+  "identical", "duplicates", "multiscale", "special_values"};
 static const char * const QUERY_KIND[] = {"inside", "on_data_point", "near_data_point", "far_outside",
-  "outside", "bbox_corner_face", "midpoint_tie", "extreme_far"};
+  "outside", "bbox_corner_face", "midpoint_tie", "extreme_far", "special_point"};
+static const char * const CALL_MODE[] = {"lvalue", "temporaries_const_object", "moved_query", "query_is_dataset_element",
+  "k_aliases_index_buffer", "lvalue_const_object"};
 
 // point of type P from Cartesian coordinates (rounded to Scalar), homogeneous w = 1
 template<class P> static P mk(const double * v)
@@ -77,6 +82,158 @@ static void unit_dir(vh::Rng & r, int D, double * d)
   for (int i = 0; i < D; ++i) {d[i] /= nn;}
 }
 
+// brute-force reference for one indexed point set
+template<class P> struct Target
+{
+  static constexpr int D = PointTraits<P>::DIM;
+  const PointSet<P> * pts = nullptr;
+  int n = 0;
+  std::vector<LD> X, all, srt;
+  std::vector<char> seen;
+  size_t need = 0;
+  void bind(const PointSet<P> & p)
+  {
+    pts = &p; n = (int)p.size();
+    X.resize((size_t)n * D); all.resize(n); seen.assign(n, 0);
+    for (int i = 0; i < n; ++i) {for (int a = 0; a < D; ++a) {X[(size_t)i * D + a] = (LD)p[i][a];}}
+  }
+  void brute(const P & Q, size_t k)
+  {
+    LD ql[3];
+    for (int a = 0; a < D; ++a) {ql[a] = (LD)Q[a];}
+    for (int i = 0; i < n; ++i) {
+      LD s = 0;
+      for (int a = 0; a < D; ++a) {LD d = ql[a] - X[(size_t)i * D + a]; s += d * d;}
+      all[i] = s;
+    }
+    srt = all;
+    need = std::min((size_t)n, k + 1);
+    std::partial_sort(srt.begin(), srt.begin() + need, srt.end());
+  }
+};
+
+// all oracles of the statement for one k-nearest + one single-nearest result; Q is the VALUE the
+// query had when the calls were made
+template<class P>
+static bool check_results(
+  vh::Ctx & c, Target<P> & T, const P & Q, size_t k, const std::vector<size_t> & idx,
+  const std::vector<typename P::Scalar> & dist, size_t nn_i, typename P::Scalar nn_d, bool count_stats,
+  const std::function<vh::Params()> & params_base, const std::function<void(vh::J &)> & describe)
+{
+  typedef typename P::Scalar S;
+  constexpr int D = PointTraits<P>::DIM;
+  const LD eps = std::numeric_limits<S>::epsilon();
+  const LD floor_abs = D * (LD)std::numeric_limits<S>::min();
+  const LD DIST_K = 2 * (D + 2);       // eps multiples, reported distance vs indexed point (4 x a-priori bound)
+  const int n = T.n;
+  const PointSet<P> & pts = *T.pts;
+  T.brute(Q, k);
+  const std::vector<LD> & all = T.all;
+  const std::vector<LD> & srt = T.srt;
+  const size_t need = T.need;
+  if (count_stats) {
+    bool ties = false;
+    for (size_t j = 1; j < need; ++j) {if (srt[j] == srt[j - 1]) {ties = true;}}
+    if (ties) {c.count("queries_with_exact_ties_among_k_plus_1");}
+    if (k < (size_t)n && srt[k] == srt[k - 1]) {c.count("queries_with_tie_at_kth_boundary");}
+    if (srt[0] == 0) {c.count("queries_at_zero_distance");}
+    if (srt[0] >= 0x1p64L) {c.count("queries_with_all_sqdist_above_2pow64");}
+    c.maxi("max_min_sqdist", (double)srt[0]);
+    c.count("knn_outputs_checked", k);
+    c.maxi("max_k", (double)k);
+    c.maxi("max_n", (double)n);
+  }
+  bool ok = true;
+  int bad_j = -1;
+  auto params = [&]() {
+      vh::Params p = params_base();
+      p.push_back({"n", (double)n}); p.push_back({"k", (double)k}); p.push_back({"min_sqdist", (double)srt[0]});
+      return p;
+    };
+  auto wit = [&]() {
+      vh::J j;
+      describe(j);
+      j.f("n", n).f("k", (uint64_t)k).raw("Q", vh::jvec(Q));
+      size_t show = std::min<size_t>(k, 8);
+      j.arr("idx_head", idx.begin(), idx.begin() + show);
+      {std::string a = "["; for (size_t i = 0; i < show; ++i) {if (i) {a += ",";} a += vh::jnum((LD)dist[i]);} j.raw("dist_head", a + "]");}
+      {std::string a = "["; for (size_t i = 0; i < std::min(show, need); ++i) {if (i) {a += ",";} a += vh::jnum(srt[i]);} j.raw("brute_head", a + "]");}
+      if (bad_j >= 0) {
+        j.f("j", bad_j).f("reported_index", (uint64_t)idx[bad_j]).f("reported_dist", (LD)dist[bad_j]);
+        if (idx[bad_j] < (size_t)n) {
+          j.f("true_dist_of_reported_index", all[idx[bad_j]]).raw("reported_point", vh::jvec(pts[idx[bad_j]]));
+        }
+        j.f("brute_jth_smallest", srt[bad_j]);
+        size_t arg = std::min_element(all.begin(), all.end()) - all.begin();
+        j.f("brute_nearest_index", (uint64_t)arg).raw("brute_nearest_point", vh::jvec(pts[arg]));
+      }
+      return j.str();
+    };
+
+  // ---- k nearest: structure
+  bool in_range = true;
+  for (size_t j = 0; j < k; ++j) {if (idx[j] >= (size_t)n) {in_range = false; bad_j = (int)j; break;}}
+  if (c.expect("knn.index_in_range", in_range, "index_out_of_range", params, wit)) {
+    bool distinct = true;
+    for (size_t j = 0; j < k; ++j) {
+      if (T.seen[idx[j]]) {distinct = false; bad_j = (int)j; break;}
+      T.seen[idx[j]] = 1;
+    }
+    for (size_t j = 0; j < k; ++j) {T.seen[idx[j]] = 0;}
+    ok &= c.expect("knn.indices_distinct", distinct, "duplicate_index", params, wit);
+    bad_j = -1;
+    bool asc = true;
+    for (size_t j = 0; j < k; ++j) {
+      if (!(dist[j] >= 0) || (j && !(dist[j] >= dist[j - 1]))) {asc = false; bad_j = (int)j; break;}
+    }
+    ok &= c.expect("knn.ascending", asc, "not_ascending", params, wit);
+    // ---- k nearest: values
+    {
+      LD we = 0, wt = 1; bad_j = 0;
+      for (size_t j = 0; j < k; ++j) {
+        LD t = all[idx[j]], tol = DIST_K * eps * t + floor_abs, e = fabsl((LD)dist[j] - t);
+        bool fail = !(e <= tol);
+        if (fail || e * wt > we * tol) {we = e; wt = tol; bad_j = (int)j;}
+        if (fail) {break;}
+      }
+      ok &= c.expect_le("knn.distance_of_indexed_point", we, wt, "distance_mismatch", params, wit);
+    }
+    {
+      LD we = 0, wt = 1; bad_j = 0;
+      for (size_t j = 0; j < k; ++j) {
+        LD tol = RANK_K * eps * srt[j] + floor_abs, e = fabsl((LD)dist[j] - srt[j]);
+        bool fail = !(e <= tol);
+        if (fail || e * wt > we * tol) {we = e; wt = tol; bad_j = (int)j;}
+        if (fail) {break;}
+      }
+      ok &= c.expect_le("knn.jth_distance_vs_bruteforce", we, wt, "not_k_smallest", params, wit);
+    }
+  } else {
+    ok = false;
+  }
+  // ---- single nearest neighbour
+  auto wit1 = [&]() {
+      vh::J j;
+      describe(j);
+      j.f("n", n).raw("Q", vh::jvec(Q)).f("reported_index", (uint64_t)nn_i).f("reported_dist", (LD)nn_d)
+      .f("brute_min", srt[0]);
+      if (nn_i < (size_t)n) {j.f("true_dist_of_reported_index", all[nn_i]).raw("reported_point", vh::jvec(pts[nn_i]));}
+      size_t arg = std::min_element(all.begin(), all.end()) - all.begin();
+      j.f("brute_nearest_index", (uint64_t)arg).raw("brute_nearest_point", vh::jvec(pts[arg]));
+      return j.str();
+    };
+  if (c.expect("nn.index_in_range", nn_i < (size_t)n, "index_out_of_range", params, wit1)) {
+    LD t = all[nn_i];
+    ok &= c.expect_le("nn.distance_of_indexed_point", fabsl((LD)nn_d - t), DIST_K * eps * t + floor_abs,
+        "distance_mismatch", params, wit1);
+    ok &= c.expect_le("nn.distance_vs_bruteforce", fabsl((LD)nn_d - srt[0]), RANK_K * eps * srt[0] + floor_abs,
+        "not_nearest", params, wit1);
+  } else {
+    ok = false;
+  }
+  return ok;
+}
+
 template<class P>
 static void run_set(vh::Ctx & c, vh::Rng & r)
 {
@@ -84,7 +241,7 @@ static void run_set(vh::Ctx & c, vh::Rng & r)
   constexpr int D = PointTraits<P>::DIM;
   const LD eps = std::numeric_limits<S>::epsilon();
   const LD floor_abs = D * (LD)std::numeric_limits<S>::min();
-  const LD DIST_K = 2 * (D + 2);       // eps multiples, reported distance vs indexed point (4 x a-priori bound)
+  const bool is_float = sizeof(S) == 4;
   const char * tname = TypeName<P>::n();
   const int tid = TypeName<P>::id;
 
@@ -102,13 +259,16 @@ static void run_set(vh::Ctx & c, vh::Rng & r)
     }
   }
   // ---------------------------------------------------------------- distribution
-  int kind = (int)r.range(0, 7);
+  int kind = (int)r.range(0, 8);
   double scale = r.coin(0.3) ? 1.0 : r.logu(1e-3, 1e3);
   double centre[3] = {0, 0, 0};
-  bool large_offset = false;
+  bool large_offset = false, tiny_scale = false;
   {
-    int ck = (int)r.range(0, 4);
+    int ck = (int)r.range(0, 5);
     if (ck == 4) {large_offset = true; scale = 1.0;}   // unit spacing, translated by 1e5..1e9 per axis
+    if (ck == 5) {   // extents down to where squared nearest-neighbour distances are still normal numbers
+      tiny_scale = true; scale = r.logu(is_float ? 1e-15 : 1e-150, 1e-6); ck = 0;
+    }
     for (int i = 0; i < D; ++i) {
       centre[i] = ck == 0 ? 0.0 : ck == 1 ? r.uni(-10, 10) * scale : ck == 2 ? r.uni(-1e3, 1e3) * scale :
         ck == 3 ? std::ldexp(std::round(r.uni(-64, 64)), (int)std::floor(std::log2(scale))) :
@@ -192,6 +352,19 @@ static void run_set(vh::Ctx & c, vh::Rng & r)
           for (int i = 0; i < n; ++i) {pts[i] = base[r.range(0, distinct - 1)];}
           exact_dups = n > distinct;
         } break;
+      case 8: {  // special values random reals never produce: zeros of both signs, small integers, halves,
+                 // denormals, the smallest normal; often with equal components
+          const double pool[] = {0.0, -0.0, 1.0, -1.0, 2.0, -2.0, 0.5, 3.0, 4.0,
+            (double)std::numeric_limits<S>::denorm_min(), -(double)std::numeric_limits<S>::denorm_min(),
+            (double)std::numeric_limits<S>::min()};
+          for (int i = 0; i < n; ++i) {
+            bool eq = r.coin(0.3);
+            double first = pool[r.range(0, 11)];
+            for (int a = 0; a < D; ++a) {v[a] = eq ? first : pool[r.range(0, 11)];}
+            pts[i] = mk<P>(v);
+          }
+          exact_dups = n > 1;
+        } break;
       default: {  // multiscale: nested clusters, sizes shrinking geometrically (deep unbalanced tree)
           double cc[3];
           for (int a = 0; a < D; ++a) {cc[a] = centre[a];}
@@ -210,16 +383,15 @@ static void run_set(vh::Ctx & c, vh::Rng & r)
   c.cat(std::string("set_") + SET_KIND[kind]);
   c.cat(nb);
   if (large_offset) {c.cat("set_large_offset");}
+  if (tiny_scale) {c.cat("set_tiny_scale");}
   if (exact_dups) {c.count("sets_with_exact_duplicates");}
 
   // flat long-double copy of the Cartesian coordinates actually stored, bounding box
-  std::vector<LD> X((size_t)n * D);
   double lo[3], hi[3];
   for (int a = 0; a < D; ++a) {lo[a] = hi[a] = (double)pts[0][a];}
   for (int i = 0; i < n; ++i) {
     for (int a = 0; a < D; ++a) {
       double x = (double)pts[i][a];
-      X[(size_t)i * D + a] = (LD)pts[i][a];
       lo[a] = std::min(lo[a], x); hi[a] = std::max(hi[a], x);
     }
   }
@@ -241,26 +413,126 @@ static void run_set(vh::Ctx & c, vh::Rng & r)
     });
 
   // ---------------------------------------------------------------- the index under test
-  KdTree<P> tree(pts);
+  std::unique_ptr<KdTree<P>> holder(new KdTree<P>(pts));
+  // value semantics: KdTree is neither copyable nor movable at present (the adaptor deletes its copy
+  // operations and holds a reference); should that change, the copy must answer like the original
+  // after the original is gone.
+  if constexpr (std::is_copy_constructible<KdTree<P>>::value) {
+    std::unique_ptr<KdTree<P>> cp(new KdTree<P>(*holder));
+    holder.reset();
+    holder = std::move(cp);
+    c.cat("tree_copy_constructed_source_destroyed");
+  } else if constexpr (std::is_move_constructible<KdTree<P>>::value) {
+    std::unique_ptr<KdTree<P>> cp(new KdTree<P>(std::move(*holder)));
+    holder.reset();
+    holder = std::move(cp);
+    c.cat("tree_move_constructed_source_destroyed");
+  } else {
+    c.count("tree_type_is_not_copyable_nor_movable");
+  }
+  KdTree<P> & tree = *holder;
+  const KdTree<P> & ctree = *holder;
+  Target<P> T;
+  T.bind(pts);
+
+  // ---------------------------------------------------------------- sibling index of the same type
+  // (other object of the same class: shares every static / per-class hidden state there might be)
+  std::unique_ptr<PointSet<P>> sib_pts;
+  std::unique_ptr<KdTree<P>> sib;
+  Target<P> ST;
+  int sib_destroy_at = NQ + 1;
+  if (r.coin(0.5)) {
+    int n2 = (int)r.range(1, 40);
+    int sm = (int)r.range(0, 2);
+    sib_pts.reset(new PointSet<P>(n2));
+    double v[3] = {0, 0, 0};
+    for (int i = 0; i < n2; ++i) {
+      if (sm == 0) {
+        for (int a = 0; a < D; ++a) {v[a] = r.uni(lo[a] - ext, hi[a] + ext);}
+        (*sib_pts)[i] = mk<P>(v);
+      } else if (sm == 1) {
+        (*sib_pts)[i] = pts[r.range(0, n - 1)];                       // same coordinates, other indices
+      } else {
+        (*sib_pts)[i] = pts[r.range(0, n - 1)];
+        for (int a = 0; a < D; ++a) {(*sib_pts)[i][a] += static_cast<S>(3 * ext);}
+      }
+    }
+    sib.reset(new KdTree<P>(*sib_pts));
+    ST.bind(*sib_pts);
+    sib_destroy_at = (int)r.range(NQ / 4, NQ + 5);     // sometimes destroyed while the main index is still used
+    c.cat("sibling_index_same_type");
+  }
 
   const int kmax = std::min(n, 50);
   std::vector<size_t> idx;
   std::vector<S> dist;
   std::unique_ptr<size_t> nn_i(new size_t(std::numeric_limits<size_t>::max()));
   std::unique_ptr<S> nn_d(new S(-1));
-  std::vector<LD> all(n), srt;
-  std::vector<char> seen(n, 0);
   int kprev = 0;
+
+  // ---------------------------------------------------------------- long history before observing
+  // findNearestNeighbor re-arms the object's single shared result set on every call: repeat one of
+  // the two queries 2^8+j / 2^16+j times, j = -NQ..3, so that the wrap-around of a narrow per-object
+  // counter falls either inside the observed queries that follow (j < 0) or just before them.
+  int history = 0;
+  bool history_knn = false;
+  if (n <= 200) {
+    int hk = (int)r.range(0, 199);
+    history = hk == 0 ? 65536 + (int)r.range(-NQ, 3) : hk <= 6 ? 256 + (int)r.range(-NQ, 3) : 0;
+    history_knn = r.coin();
+  }
+  if (history) {
+    c.cat(history > 60000 ? "history_2pow16_plus_calls" : "history_2pow8_plus_calls");
+    P hq[4];
+    double v[3] = {0, 0, 0};
+    for (int j = 0; j < 4; ++j) {
+      if (j & 1) {hq[j] = pts[r.range(0, n - 1)];} else {
+        for (int a = 0; a < D; ++a) {v[a] = r.uni(lo[a] - ext, hi[a] + ext);}
+        hq[j] = mk<P>(v);
+      }
+    }
+    std::unique_ptr<size_t> hi_(new size_t(0));
+    std::unique_ptr<S> hd_(new S(0));
+    size_t hk3 = std::min<size_t>(n, 3);
+    std::vector<size_t> hidx(hk3);
+    std::vector<S> hdist(hk3);
+    for (int j = 0; j < history; ++j) {
+      if (history_knn) {tree.findNearestNeighbors(hq[j & 3], hk3, hidx, hdist);} else {
+        tree.findNearestNeighbor(hq[j & 3], *hi_, *hd_);
+      }
+    }
+    c.count("history_calls", (uint64_t)history);
+  }
+
+  // results of the first query are kept (same storage, never touched again by the harness) and
+  // compared at the end of the case
+  std::vector<size_t> kept_idx, snap_idx;
+  std::vector<S> kept_dist, snap_dist;
+  std::unique_ptr<size_t> kept_nn_i;
+  std::unique_ptr<S> kept_nn_d;
+  size_t snap_nn_i = 0, k0 = 0;
+  S snap_nn_d = 0;
+  P Q0 = pts[0], Qprev = pts[0];
+  bool first_ok = false;
+
+  auto base_params = [&](int qk, bool reuse, int cm, bool sibling) {
+      return vh::Params{{"type", (double)tid}, {"dim", (double)D}, {"is_float", is_float ? 1.0 : 0.0},
+        {"set_kind", (double)kind}, {"query_kind", (double)qk}, {"scale", scale},
+        {"reused_buffers", reuse ? 1.0 : 0.0}, {"large_offset", large_offset ? 1.0 : 0.0},
+        {"tiny_scale", tiny_scale ? 1.0 : 0.0}, {"call_mode", (double)cm}, {"sibling", sibling ? 1.0 : 0.0},
+        {"history_calls", (double)history}};
+    };
 
   for (int q = 0; q < NQ; ++q) {
     // ------------------------------------------------------------ query point
     int qk;
     {
-      int t = (int)r.range(0, 13);
-      qk = t <= 2 ? 0 : t == 3 ? 1 : t == 4 ? 2 : t <= 7 ? 3 : t == 8 ? 4 : t == 9 ? 5 : t <= 11 ? 6 : 7;
+      int t = (int)r.range(0, 14);
+      qk = t <= 2 ? 0 : t == 3 ? 1 : t == 4 ? 2 : t <= 7 ? 3 : t == 8 ? 4 : t == 9 ? 5 : t <= 11 ? 6 : t <= 13 ? 7 : 8;
     }
     double v[3] = {0, 0, 0};
     P Q;
+    int64_t data_sel = -1;
     switch (qk) {
       case 0:
         for (int a = 0; a < D; ++a) {
@@ -270,7 +542,8 @@ static void run_set(vh::Ctx & c, vh::Rng & r)
         Q = mk<P>(v);
         break;
       case 1:
-        Q = pts[r.range(0, n - 1)];
+        data_sel = r.range(0, n - 1);
+        Q = pts[data_sel];
         break;
       case 2: {
           Q = pts[r.range(0, n - 1)];
@@ -298,10 +571,10 @@ static void run_set(vh::Ctx & c, vh::Rng & r)
           } else {
             unit_dir(r, D, dir);
           }
-          // far: 1e3..2e3 extents; outside: 0.6..100 extents; extreme: absolute distance log-spaced
-          // 1e3..1e16 (squared distances up to ~1e32: finite in float and double, far above 2^64)
+          // far: 1e3..2e3 extents; outside: 0.6..100 extents; extreme: absolute distance log-spaced from
+          // 1e3 to the last decade whose square (times DIM) is finite in the Scalar: 1e18 float, 1e150 double
           double far = qk == 3 ? 1e3 * r.uni(1.0, 2.0) * ext : qk == 4 ? r.logu(0.6, 100.0) * ext :
-            r.logu(1e3, 1e16);
+            r.logu(1e3, is_float ? 1e18 : 1e150);
           // start from the centre or from a random place inside the box
           for (int a = 0; a < D; ++a) {
             double from = r.coin() ? mid[a] : r.uni(lo[a], hi[a]);
@@ -313,11 +586,25 @@ static void run_set(vh::Ctx & c, vh::Rng & r)
         for (int a = 0; a < D; ++a) {int s = (int)r.range(0, 2); v[a] = s == 0 ? lo[a] : s == 1 ? hi[a] : mid[a];}
         Q = mk<P>(v);
         break;
-      default: {
+      case 6: {
           const P & A = pts[r.range(0, n - 1)];
           const P & B = pts[r.range(0, n - 1)];
           Q = A;
           for (int a = 0; a < D; ++a) {Q[a] = (A[a] + B[a]) / S(2);}
+        } break;
+      default: {   // exact special points
+          int sk = (int)r.range(0, 3);
+          if (sk == 0) {
+            for (int a = 0; a < D; ++a) {v[a] = r.coin() ? 0.0 : -0.0;}                 // the origin, signed zeros
+          } else if (sk == 1) {
+            const double cs[] = {0.0, 1.0, -1.0, 0.5, std::round(mid[0]), mid[0], lo[0], hi[0]};
+            double cv = cs[r.range(0, 7)];
+            for (int a = 0; a < D; ++a) {v[a] = cv;}                                   // equal components
+          } else if (sk == 2) {
+            for (int a = 0; a < D; ++a) {v[a] = std::round(r.uni(lo[a] - 1.0, hi[a] + 1.0));}   // integers
+          }
+          Q = mk<P>(v);
+          if (sk == 3) {Q = Qprev;}                                                    // the same value twice
         } break;
     }
     c.cat(std::string("query_") + QUERY_KIND[qk]);
@@ -325,7 +612,7 @@ static void run_set(vh::Ctx & c, vh::Rng & r)
 
     // ------------------------------------------------------------ k and the caller-sized buffers
     size_t k;
-    bool reuse = q > 0 && r.coin(0.3);
+    bool reuse = q > 1 && r.coin(0.3);
     if (reuse) {
       k = kprev;                      // buffers keep the previous query's results (as NormalAndCurvatureEstimation does)
       c.count("queries_with_reused_buffers");
@@ -338,115 +625,116 @@ static void run_set(vh::Ctx & c, vh::Rng & r)
     kprev = (int)k;
     if (!reuse || r.coin()) {*nn_i = std::numeric_limits<size_t>::max(); *nn_d = S(-1);}
 
-    tree.findNearestNeighbors(Q, k, idx, dist);
-    tree.findNearestNeighbor(Q, *nn_i, *nn_d);
-
-    // ------------------------------------------------------------ brute force
-    LD ql[3];
-    for (int a = 0; a < D; ++a) {ql[a] = (LD)Q[a];}
-    for (int i = 0; i < n; ++i) {
-      LD s = 0;
-      for (int a = 0; a < D; ++a) {LD d = ql[a] - X[(size_t)i * D + a]; s += d * d;}
-      all[i] = s;
+    // ------------------------------------------------------------ the calls, in every value category / aliasing
+    // the signatures admit; the oracle uses the value Q had when the call was made
+    int cm = (int)r.range(0, 5);
+    if (data_sel >= 0 && r.coin()) {cm = 3;}
+    if (cm == 3 && data_sel < 0) {cm = 0;}
+    c.cat(std::string("call_") + CALL_MODE[cm]);
+    switch (cm) {
+      case 1:
+        ctree.findNearestNeighbors(P(Q), size_t(k), idx, dist);
+        ctree.findNearestNeighbor(P(Q), *nn_i, *nn_d);
+        break;
+      case 2: {
+          P m1 = Q, m2 = Q;
+          tree.findNearestNeighbors(std::move(m1), k, idx, dist);
+          tree.findNearestNeighbor(std::move(m2), *nn_i, *nn_d);
+        } break;
+      case 3:   // the query is an element of the indexed set itself, passed by reference
+        tree.findNearestNeighbors(pts[data_sel], k, idx, dist);
+        tree.findNearestNeighbor(pts[data_sel], *nn_i, *nn_d);
+        break;
+      case 4: {  // the number of neighbours is read through a reference into the index output buffer
+          size_t j0 = (size_t)r.range(0, (int64_t)k - 1);
+          idx[j0] = k;
+          tree.findNearestNeighbors(Q, idx[j0], idx, dist);
+          tree.findNearestNeighbor(Q, *nn_i, *nn_d);
+        } break;
+      case 5:
+        ctree.findNearestNeighbors(Q, k, idx, dist);
+        ctree.findNearestNeighbor(Q, *nn_i, *nn_d);
+        break;
+      default:
+        tree.findNearestNeighbors(Q, k, idx, dist);
+        tree.findNearestNeighbor(Q, *nn_i, *nn_d);
+        break;
     }
-    srt = all;
-    size_t need = std::min((size_t)n, k + 1);
-    std::partial_sort(srt.begin(), srt.begin() + need, srt.end());
-    bool ties = false;
-    for (size_t j = 1; j < need; ++j) {if (srt[j] == srt[j - 1]) {ties = true;}}
-    if (ties) {c.count("queries_with_exact_ties_among_k_plus_1");}
-    if (k < (size_t)n && srt[k] == srt[k - 1]) {c.count("queries_with_tie_at_kth_boundary");}
-    if (srt[0] == 0) {c.count("queries_at_zero_distance");}
-    if (srt[0] >= 0x1p64L) {c.count("queries_with_all_sqdist_above_2pow64");}
-    c.maxi("max_min_sqdist", (double)srt[0]);
-    c.count("knn_outputs_checked", k);
-    c.maxi("max_k", (double)k);
-    c.maxi("max_n", (double)n);
 
-    int bad_j = -1;
-    auto params = [&]() {
-        return vh::Params{{"type", (double)tid}, {"dim", (double)D}, {"is_float", sizeof(S) == 4 ? 1.0 : 0.0},
-          {"n", (double)n}, {"k", (double)k}, {"set_kind", (double)kind}, {"query_kind", (double)qk},
-          {"scale", scale}, {"reused_buffers", reuse ? 1.0 : 0.0}, {"large_offset", large_offset ? 1.0 : 0.0},
-          {"min_sqdist", (double)srt[0]}};
+    bool ok = check_results<P>(c, T, Q, k, idx, dist, *nn_i, *nn_d, true,
+        [&]() {return base_params(qk, reuse, cm, false);},
+        [&](vh::J & j) {
+          j.s("type", tname).s("set", SET_KIND[kind]).s("query", QUERY_KIND[qk]).s("call", CALL_MODE[cm])
+          .f("query_no", q).boolean("reused_buffers", reuse).f("history_calls", history);
+        });
+    Qprev = Q;
+
+    if (q == 0) {   // keep the first results in their own storage
+      first_ok = ok; Q0 = Q; k0 = k;
+      snap_idx = idx; snap_dist = dist; snap_nn_i = *nn_i; snap_nn_d = *nn_d;
+      kept_idx.swap(idx); kept_dist.swap(dist);
+      kept_nn_i = std::move(nn_i); kept_nn_d = std::move(nn_d);
+      nn_i.reset(new size_t(std::numeric_limits<size_t>::max()));
+      nn_d.reset(new S(-1));
+    }
+
+    // ------------------------------------------------------------ sibling index in between
+    if (sib && q >= sib_destroy_at) {sib.reset(); sib_pts.reset(); c.count("sibling_destroyed_mid_case");}
+    if (sib && r.coin(0.3)) {
+      int n2 = ST.n;
+      P Q2 = r.coin() ? Q : (*sib_pts)[r.range(0, n2 - 1)];
+      size_t k2 = (size_t)r.range(1, std::min(n2, 50));
+      std::vector<size_t> i2(k2, std::numeric_limits<size_t>::max());
+      std::vector<S> d2(k2, S(-1));
+      std::unique_ptr<size_t> ni2(new size_t(std::numeric_limits<size_t>::max()));
+      std::unique_ptr<S> nd2(new S(-1));
+      sib->findNearestNeighbors(Q2, k2, i2, d2);
+      sib->findNearestNeighbor(Q2, *ni2, *nd2);
+      c.count("sibling_queries");
+      check_results<P>(c, ST, Q2, k2, i2, d2, *ni2, *nd2, false,
+        [&]() {return base_params(qk, false, 0, true);},
+        [&](vh::J & j) {j.s("type", tname).s("set", "sibling").f("after_query_no", q);});
+    }
+  }
+
+  // ---------------------------------------------------------------- result stability
+  {
+    auto sp = [&]() {
+        vh::Params p = base_params(-1, false, 0, false);
+        p.push_back({"n", (double)n}); p.push_back({"k", (double)k0});
+        return p;
       };
-    auto wit = [&]() {
-        vh::J j;
-        j.s("type", tname).f("n", n).f("k", (uint64_t)k).s("set", SET_KIND[kind]).s("query", QUERY_KIND[qk])
-        .f("query_no", q).raw("Q", vh::jvec(Q)).boolean("reused_buffers", reuse);
-        size_t show = std::min<size_t>(k, 8);
-        j.arr("idx_head", idx.begin(), idx.begin() + show);
-        {std::string a = "["; for (size_t i = 0; i < show; ++i) {if (i) {a += ",";} a += vh::jnum((LD)dist[i]);} j.raw("dist_head", a + "]");}
-        {std::string a = "["; for (size_t i = 0; i < std::min(show, need); ++i) {if (i) {a += ",";} a += vh::jnum(srt[i]);} j.raw("brute_head", a + "]");}
-        if (bad_j >= 0) {
-          j.f("j", bad_j).f("reported_index", (uint64_t)idx[bad_j]).f("reported_dist", (LD)dist[bad_j]);
-          if (idx[bad_j] < (size_t)n) {
-            j.f("true_dist_of_reported_index", all[idx[bad_j]]).raw("reported_point", vh::jvec(pts[idx[bad_j]]));
-          }
-          j.f("brute_jth_smallest", srt[bad_j]);
-          size_t arg = std::min_element(all.begin(), all.end()) - all.begin();
-          j.f("brute_nearest_index", (uint64_t)arg).raw("brute_nearest_point", vh::jvec(pts[arg]));
-        }
-        return j.str();
-      };
-
-    // ---- k nearest: structure
-    bool in_range = true;
-    for (size_t j = 0; j < k; ++j) {if (idx[j] >= (size_t)n) {in_range = false; bad_j = (int)j; break;}}
-    if (!c.expect("knn.index_in_range", in_range, "index_out_of_range", params, wit)) {continue;}
-    bool distinct = true;
-    for (size_t j = 0; j < k; ++j) {
-      if (seen[idx[j]]) {distinct = false; bad_j = (int)j; break;}
-      seen[idx[j]] = 1;
-    }
-    for (size_t j = 0; j < k; ++j) {seen[idx[j]] = 0;}
-    c.expect("knn.indices_distinct", distinct, "duplicate_index", params, wit);
-    bad_j = -1;
-    bool asc = true;
-    for (size_t j = 0; j < k; ++j) {
-      if (!(dist[j] >= 0) || (j && !(dist[j] >= dist[j - 1]))) {asc = false; bad_j = (int)j; break;}
-    }
-    c.expect("knn.ascending", asc, "not_ascending", params, wit);
-    // ---- k nearest: values
-    {
-      LD we = 0, wt = 1; bad_j = 0;
-      for (size_t j = 0; j < k; ++j) {
-        LD t = all[idx[j]], tol = DIST_K * eps * t + floor_abs, e = fabsl((LD)dist[j] - t);
-        bool fail = !(e <= tol);
-        if (fail || e * wt > we * tol) {we = e; wt = tol; bad_j = (int)j;}
-        if (fail) {break;}
+    bool same = kept_idx.size() == snap_idx.size() && kept_dist.size() == snap_dist.size() &&
+      (k0 == 0 || (std::memcmp(kept_idx.data(), snap_idx.data(), k0 * sizeof(size_t)) == 0 &&
+      std::memcmp(kept_dist.data(), snap_dist.data(), k0 * sizeof(S)) == 0)) &&
+      *kept_nn_i == snap_nn_i && std::memcmp(kept_nn_d.get(), &snap_nn_d, sizeof(S)) == 0;
+    c.expect("stability.kept_outputs_unchanged", same, "result_changed_later", sp, [&]() {
+        return vh::J().s("type", tname).s("set", SET_KIND[kind]).f("n", n).f("k", (uint64_t)k0).raw("Q", vh::jvec(Q0))
+               .f("nn_index_then", (uint64_t)snap_nn_i).f("nn_index_now", (uint64_t)*kept_nn_i)
+               .f("nn_dist_then", (LD)snap_nn_d).f("nn_dist_now", (LD)*kept_nn_d).str();
+      });
+    // the same query again at the end of the history: checked by the oracles once more, and its
+    // distances must agree with the first answer (both are within RANK_K eps of the same true values)
+    std::vector<size_t> i3(k0, std::numeric_limits<size_t>::max());
+    std::vector<S> d3(k0, S(-1));
+    std::unique_ptr<size_t> ni3(new size_t(std::numeric_limits<size_t>::max()));
+    std::unique_ptr<S> nd3(new S(-1));
+    ctree.findNearestNeighbors(Q0, k0, i3, d3);
+    ctree.findNearestNeighbor(Q0, *ni3, *nd3);
+    bool ok3 = check_results<P>(c, T, Q0, k0, i3, d3, *ni3, *nd3, false,
+        [&]() {return base_params(-2, false, 5, false);},
+        [&](vh::J & j) {j.s("type", tname).s("set", SET_KIND[kind]).s("query", "first query repeated at the end");});
+    if (first_ok && ok3) {
+      LD we = 0, wt = 1;
+      for (size_t j = 0; j <= k0; ++j) {
+        LD a = j < k0 ? (LD)snap_dist[j] : (LD)snap_nn_d, b = j < k0 ? (LD)d3[j] : (LD)*nd3;
+        LD tol = 2 * RANK_K * eps * std::max(a, b) + floor_abs, e = fabsl(a - b);
+        if (!(e <= tol) || e * wt > we * tol) {we = e; wt = tol;}
       }
-      c.expect_le("knn.distance_of_indexed_point", we, wt, "distance_mismatch", params, wit);
-    }
-    {
-      LD we = 0, wt = 1; bad_j = 0;
-      for (size_t j = 0; j < k; ++j) {
-        LD tol = RANK_K * eps * srt[j] + floor_abs, e = fabsl((LD)dist[j] - srt[j]);
-        bool fail = !(e <= tol);
-        if (fail || e * wt > we * tol) {we = e; wt = tol; bad_j = (int)j;}
-        if (fail) {break;}
-      }
-      c.expect_le("knn.jth_distance_vs_bruteforce", we, wt, "not_k_smallest", params, wit);
-    }
-    // ---- single nearest neighbour
-    bad_j = -1;
-    auto wit1 = [&]() {
-        vh::J j;
-        j.s("type", tname).f("n", n).s("set", SET_KIND[kind]).s("query", QUERY_KIND[qk]).f("query_no", q)
-        .raw("Q", vh::jvec(Q)).f("reported_index", (uint64_t)*nn_i).f("reported_dist", (LD)*nn_d)
-        .f("brute_min", srt[0]);
-        if (*nn_i < (size_t)n) {j.f("true_dist_of_reported_index", all[*nn_i]).raw("reported_point", vh::jvec(pts[*nn_i]));}
-        size_t arg = std::min_element(all.begin(), all.end()) - all.begin();
-        j.f("brute_nearest_index", (uint64_t)arg).raw("brute_nearest_point", vh::jvec(pts[arg]));
-        return j.str();
-      };
-    if (!c.expect("nn.index_in_range", *nn_i < (size_t)n, "index_out_of_range", params, wit1)) {continue;}
-    {
-      LD t = all[*nn_i];
-      c.expect_le("nn.distance_of_indexed_point", fabsl((LD)*nn_d - t), DIST_K * eps * t + floor_abs,
-        "distance_mismatch", params, wit1);
-      c.expect_le("nn.distance_vs_bruteforce", fabsl((LD)*nn_d - srt[0]), RANK_K * eps * srt[0] + floor_abs,
-        "not_nearest", params, wit1);
+      c.expect_le("stability.requery_same_distances", we, wt, "result_depends_on_history", sp, [&]() {
+          return vh::J().s("type", tname).s("set", SET_KIND[kind]).f("n", n).f("k", (uint64_t)k0).raw("Q", vh::jvec(Q0))
+                 .f("first_dist0", (LD)snap_dist[0]).f("again_dist0", (LD)d3[0]).str();
+        });
     }
   }
 }
